@@ -2112,6 +2112,8 @@ func transAll(v1, v2 *pkg) string {
 		{file: "azure-shared-resource.go", recv: "AzureSharedResource", name: "Start", lean: "v1_sr_startHead", view: "_ph", until: "recalc := func"},
 		{file: "azure-shared-resource.go", recv: "AzureSharedResource", name: "Stop", lean: "v1_sr_Stop", view: "_ph",
 			inputs: map[string]string{"r.stop != nil": "hasStop:bool"}, captureCalls: map[string]string{"close": "closeStop", "r.shutdown.Wait": "wait"}},
+		{file: "azure-shared-resource.go", recv: "AzureSharedResource", name: "Provision", lean: "v1_sr_provisionTail", view: "_pt", sliceAt: "r.partitions = make([]*string, count)", sliceN: 4,
+			inputs: map[string]string{"count": "count:int", "r.leaseManager.createPartitions(ctx, count)": "createErr:err"}},
 		{file: "azure-shared-resource.go", recv: "AzureSharedResource", name: "Provision", lean: "v1_sr_requirements", until: "r.partlock.Lock", view: "_req"},
 		{file: "azure-shared-resource.go", recv: "AzureSharedResource", name: "Provision", lean: "v1_sr_partitionCount", sliceFrom: "count", sliceN: 2, sliceOut: []string{"count", "err"}},
 		{file: "provisioned-resource.go", recv: "ProvisionedResource", name: "MaxCapacity", lean: "v1_pr_MaxCapacity"},
